@@ -15,7 +15,7 @@ LEVEL_TEXT = (
     "for a well-formed, sealed expression e, if the reducer answers r on e, a on stage(e) and b on stage(r) then a = b, "
     "for arguments, input UTxOs and the fee alike and for every fuel (C07_reduce_commutes_with_stage, proved once over "
     "the laws IsStage that the three stages satisfy), hence along chains of stages (C07_two_stages) and, lifted through the eleven fields, for whole transactions (C07_tx_reduce_commutes_with_stage), and the reducer's "
-    "answer does not depend on its fuel (reduceF_det). Clauses involving the compiler pass and "
+    "answer does not depend on its fuel (reduceF_det); (6) every stage and every reduction treats the lists of a transaction (signers, references, inputs, outputs, mints, burns, metadata, collateral, directives) entry by entry - lengths and positions are kept, whether or not two entries have become equal (C07_lists_keep_their_length, C07_signers_entrywise, C07_stage_keeps_lists); (7) the compiler-op stage returns a template without ops unchanged, leaves no op behind when the compiler's answers hold none - proved of the Cardano model's reduce_op - and is therefore idempotent once it has succeeded (C07_cardano_compiler_pass_idempotent). The other clauses involving the compiler pass and "
     "the equality of final templates across whole-transaction schedules are decided per generated template by running every stage "
     "permutation x every reduce placement on the real crates and comparing canonical results, with the model's "
     "apply/reduce/compiler-pass tied by correspondence on the same cases and the well-formedness hypothesis evaluated "
@@ -30,8 +30,8 @@ LEVEL_NOTE = (
     "Known finding C07-query-error-masked is reported, not suppressed silently."
 )
 PROP = "C07"
-LEAN_TARGETS = ["Tx3Proofs.C07", "Tx3Proofs.C07Reduce", "Tx3Proofs.C07Confluence", "Tx3Proofs.C07Tx", "Tx3Proofs.C06Lower"]
-AUDIT_MODULES = ["Tx3Proofs.C07", "Tx3Proofs.C07Reduce", "Tx3Proofs.C07Confluence", "Tx3Proofs.C07Tx", "Tx3Proofs.C06Lower"]
+LEAN_TARGETS = ["Tx3Proofs.C07", "Tx3Proofs.C07Reduce", "Tx3Proofs.C07Confluence", "Tx3Proofs.C07Tx", "Tx3Proofs.C06Lower", "Tx3Proofs.C07Lists", "Tx3Proofs.C07Compiler", "Tx3Proofs.C06LowerAdhoc"]
+AUDIT_MODULES = ["Tx3Proofs.C07", "Tx3Proofs.C07Reduce", "Tx3Proofs.C07Confluence", "Tx3Proofs.C07Tx", "Tx3Proofs.C06Lower", "Tx3Proofs.C07Lists", "Tx3Proofs.C07Compiler", "Tx3Proofs.C06LowerAdhoc"]
 THEOREMS = [
     "Tx3.Expr.C07_args_fees", "Tx3.Expr.C07_args_inputs", "Tx3.Expr.C07_fees_inputs",
     "Tx3.Stage.commute_expr", "Tx3.C07_apply_commute",
@@ -41,7 +41,7 @@ THEOREMS = [
     "Tx3.C07_reduce_commutes_with_stage", "Tx3.C07_reduce_then_stage", "Tx3.C07_two_stages", "Tx3.sealedb_Sealed",
     "Tx3.Tx.mapM_rel", "Tx3.C07_tx_reduce_commutes_with_stage",
     "Tx3.Lang.lowerTx_sealed_WF",
-]
+    "Tx3.C07_lists_keep_their_length", "Tx3.C07_signers_entrywise", "Tx3.C07_stage_keeps_lists", "Tx3.compilerPass_opFree", "Tx3.compilerPass_leaves_none", "Tx3.C07_compiler_pass_idempotent", "Tx3.reduceOp_answers_opFree", "Tx3.C07_cardano_compiler_pass_idempotent", "Tx3.Lang.lowerTxFull_sealed_WF"]
 
 RULE = (
     "cases = a query-shape sweep (an input block and a collateral block whose query states every subset of address / "
